@@ -32,7 +32,31 @@ func genUnmarshalCases(r *rng, n int, emit func(string, ...string), forceOpts fu
 		fault := false
 		var data []byte
 		truth := ""
-		switch k := sub.intn(11); {
+		switch k := sub.intn(12); {
+		case k == 11: // an HTTP record whose Content-Type is spelled unusually (white space around ';', letter case, further
+			// parameters), with a WRONG payload digest and everything else truthful: the block must still be taken for HTTP
+			for tries := 0; tries < 60 && !(g.httpHead >= 0 && (g.rtype == "response" || g.rtype == "request") && !g.badHead); tries++ {
+				g = genRecord(sub)
+			}
+			for k := range g.hdr {
+				if g.hdr[k][0] == "Content-Type" && g.httpHead >= 0 {
+					g.hdr[k][1] = pick(sub, []string{"application/http ; msgtype=" + g.rtype, "application/http ;msgtype=" + g.rtype, "Application/HTTP\t; msgtype=" + g.rtype,
+						"APPLICATION/HTTP;MSGTYPE=" + strings.ToUpper(g.rtype), "application/http;msgtype=" + g.rtype + ";charset=utf-8", "application/http ", "application/http"})
+				}
+			}
+			for tries := 0; tries < 60; tries++ {
+				g.blockDigest, g.payDigest, g.declLen = "", "", ""
+				g.declare(sub, true)
+				if strings.Contains(g.truth, "pd=bad") && strings.Contains(g.truth, "len=ok") && !strings.Contains(g.truth, "bd=bad") {
+					break
+				}
+			}
+			data = g.serialize()
+			truth = g.truth
+			if o.spec == 0 {
+				o.spec = sub.rangeInt(1, 2)
+			}
+			stat("unm-class", "http-ct-spelling")
 		case k == 10: // a warc-fields block (warcinfo / metadata) that is itself damaged, with and without the block repair
 			for tries := 0; tries < 40 && g.rtype != "warcinfo" && g.rtype != "metadata"; tries++ {
 				g = genRecord(sub)
